@@ -163,10 +163,16 @@ def invalid_env_step(rng, tr: Tracker):
     return None
 
 
+def is_instance(want, have):
+    """isinstance(object of observer kind `have`, class of kind `want`): kinds 7 and 8 are subclasses of the
+    recorder classes 5 and 4"""
+    return want == have or (want, have) in ((5, 7), (4, 8))
+
+
 def gen_session(rng: random.Random, spec, *, p_invalid=0.0, p_query=0.0, p_reset=0.0,
                 p_obs=0.0, p_snapshot=1.0, start_observers=(), max_events=60,
                 snapshot_around_invalid=False, stop_early=0.15, obs_kinds=(0, 1, 2, 3, 4, 5),
-                env_mode=False, p_cog=0.2, p_sub=0.12, p_leave=0.0):
+                env_mode=False, p_cog=0.2, p_sub=0.12, p_leave=0.0, p_copy=0.03):
     """Returns (events, stats)."""
     tr = Tracker(spec)
     events = []
@@ -175,7 +181,7 @@ def gen_session(rng: random.Random, spec, *, p_invalid=0.0, p_query=0.0, p_reset
     subs = []    # indices subscribed, in order (mirrors Dispatcher.subscribers)
 
     def construct(k, subscribe=True):
-        if k not in (5, 6) and any(kinds[i] == k for i in subs):
+        if k not in (5, 6, 7) and any(is_instance(k, kinds[i]) for i in subs):
             return  # singleton guard will reject it
         kinds.append(k)
         if subscribe:
@@ -268,7 +274,7 @@ def gen_session(rng: random.Random, spec, *, p_invalid=0.0, p_query=0.0, p_reset
                 # the second call must look at the current subscribers
                 k = rng.choice(obs_kinds)
                 for _ in range(2):
-                    cands = [i for i in subs if kinds[i] == k]
+                    cands = [i for i in subs if is_instance(k, kinds[i])]
                     events.append([6, k, []])
                     if cands:
                         idx = cands[0]
@@ -291,12 +297,12 @@ def gen_session(rng: random.Random, spec, *, p_invalid=0.0, p_query=0.0, p_reset
                     pool = same if same and rng.random() < 0.7 else list(range(len(kinds)))
                     allowed = sorted(rng.sample(pool, rng.randint(1, min(3, len(pool)))))
                     events.append([6, k, [allowed]])
-                    if not any(kinds[i] == k and i in allowed for i in subs):
+                    if not any(is_instance(k, kinds[i]) and i in allowed for i in subs):
                         # no match: the library constructs a new one (the singleton guard may refuse)
                         construct(k)
                 else:
                     events.append([6, k, []])
-                    if not any(kinds[i] == k for i in subs):
+                    if not any(is_instance(k, kinds[i]) for i in subs):
                         construct(k)
             elif c < 0.35 + p_cog + (0.65 - p_cog) / 2 and kinds:
                 i = rng.randrange(len(kinds))
@@ -309,13 +315,19 @@ def gen_session(rng: random.Random, spec, *, p_invalid=0.0, p_query=0.0, p_reset
                 subs.append(i)
             stats["obs"] += 1
             continue
+        if p_copy and rng.random() < p_copy:
+            # the caller deep-copies what it holds (copy.deepcopy) and goes on with the copy (0) or plays with the
+            # copy and goes on with the original (1): a no-op for the model
+            events.append([14, rng.randrange(2)])
+            stats["deepcopy"] = stats.get("deepcopy", 0) + 1
+            continue
         if tr.done() or (target is not None and n_accepted >= target):
             break
         ev = valid_request(rng, tr)
         if env_mode:
             ev = to_env_event(rng, ev)
         elif p_leave and rng.random() < p_leave:
-            leavers = [i for i in subs if kinds[i] in (4, 5) and subs.count(i) == 1]
+            leavers = [i for i in subs if kinds[i] in (4, 5, 7, 8) and subs.count(i) == 1]
             if leavers and len(subs) >= 2:
                 who = rng.choice(leavers)
                 ev = [12] + list(ev[1:4]) + [who]
